@@ -162,3 +162,20 @@ PROPS["C02"] = {
     ],
     "outside": ["UTF-8/UTF-16 transcoding", "big integers > 136 bits", "Field*/Scalar* wrappers (tree bookkeeping is C03)", "float80 unnormals and results in the binary64 subnormal range"],
 }
+
+
+PROPS["C04"] = {
+    "level": "model_checking",
+    "explanation": "ranges.Gaps with fully symbolic ranges and a symbolic bit position (the 'for every bit' quantifier is a solver variable), through the real generic slices.SortFunc",
+    "wall_quick": 1500, "wall_thorough": 14400,
+    "harnesses": [
+        {"entry": "pkg/ranges.VerifGapsEmpty", "clause": "no ranges: the total range is the gap", "bounds": {}},
+        {"entry": "pkg/ranges.VerifMinMax", "clause": "MinMax is the tight span", "bounds": {"values": "< 2^50"}},
+        {"entry": "pkg/ranges.VerifGaps1", "clause": "cover property, 1 range", "bounds": {"total": "<= 2^40", "ranges": 1}},
+        {"entry": "pkg/ranges.VerifGaps2", "clause": "cover property, 2 ranges (any order, overlap, empty ranges)", "bounds": {"total": "<= 4096", "ranges": 2}},
+        {"entry": "pkg/ranges.VerifGaps3", "clause": "cover property, 3 ranges", "bounds": {"total": "<= 4096", "ranges": 3}},
+        {"entry": "pkg/ranges.VerifGaps4", "tier": "thorough", "clause": "cover property, 4 ranges", "bounds": {"total": "<= 255", "ranges": 4}},
+    ],
+    "assumptions": ["total.Start = 0 and every range lies inside the total range (the only way FillGaps calls Gaps)"],
+    "outside": ["more than 4 ranges", "totals beyond the stated bounds"],
+}
